@@ -8,6 +8,8 @@ import (
 	"errors"
 	"fmt"
 	"io"
+	"net/netip"
+	"net/url"
 	"os"
 	"reflect"
 	"sort"
@@ -15,6 +17,8 @@ import (
 	"sync/atomic"
 	"testing/iotest"
 	"time"
+
+	"github.com/google/uuid"
 
 	ht "github.com/ogen-go/ogen/http"
 	"github.com/ogen-go/ogen/middleware"
@@ -100,6 +104,13 @@ func canonVal(sb *strings.Builder, v reflect.Value, depth int) {
 	if v.Type() == timeType {
 		sb.WriteString(v.Interface().(time.Time).UTC().Format(time.RFC3339Nano))
 		return
+	}
+	// opaque library values (netip.Addr, uuid.UUID, time.Duration ...) render themselves
+	if pp := v.Type().PkgPath(); pp != "" && !strings.HasSuffix(pp, "/api") && v.CanInterface() && v.Kind() != reflect.Struct || v.Type().String() == "netip.Addr" {
+		if st, ok := v.Interface().(fmt.Stringer); ok {
+			fmt.Fprintf(sb, "%s(%s)", v.Type().String(), st.String())
+			return
+		}
 	}
 	switch v.Kind() {
 	case reflect.Pointer, reflect.Interface:
@@ -480,6 +491,108 @@ func (handler) EchoWild(ctx context.Context, req *api.EchoWildReqWithContentType
 		return nil, errors.New("request stream broke")
 	}
 	return &api.EchoWildOK{Sum: sum(b), Len: len(b), Ctype: req.ContentType}, nil
+}
+
+func (handler) EchoShapes(ctx context.Context, req *api.Shapes, params api.EchoShapesParams) (*api.Shapes, error) {
+	yield(ctx)
+	saw(ctx, canon(struct {
+		Params api.EchoShapesParams
+		Body   api.Shapes
+	}{params, *req}))
+	cp := *req
+	return &cp, nil
+}
+
+func makeShapes(tag string, r *vrng) (*api.Shapes, api.Shapes) {
+	sh := &api.Shapes{}
+	var exp api.Shapes
+	if r.coin() {
+		c := api.Circle{Kind: "circle", Radius: float64(r.intn(1000)) * 0.5}
+		sh.Pick = api.NewCircleShapesPick(c)
+	} else {
+		q := api.Square{Kind: "square", Side: r.intn(1000)}
+		if r.coin() {
+			q.Label.SetTo("lab-" + tag)
+		}
+		sh.Pick = api.NewSquareShapesPick(q)
+	}
+	switch r.intn(3) {
+	case 0:
+		sh.Mood.SetTo([]api.ShapesMood{api.ShapesMoodHappy, api.ShapesMoodSad}[r.intn(2)])
+	case 1:
+		sh.Mood.SetToNull()
+	}
+	if r.coin() {
+		sh.Grid = [][]int{{r.intn(100), r.intn(100)}, {r.intn(100)}}
+	}
+	if r.coin() {
+		m := api.ShapesThings{}
+		for i, n := 0, 1+r.intn(3); i < n; i++ {
+			th := api.Thing{N: r.intn(1000)}
+			if r.coin() {
+				th.S.SetTo("s-" + tag)
+			}
+			m[fmt.Sprintf("th%d-%s", i, tag)] = th
+		}
+		sh.Things.SetTo(m)
+	}
+	if r.coin() {
+		sh.I32.SetTo(int32(r.intn(1<<31-1)) - 1<<30)
+	}
+	if r.coin() {
+		sh.I64.SetTo(int64(1)<<60 + int64(r.intn(1<<30)))
+	}
+	if r.coin() {
+		sh.F32.SetTo(float32(r.intn(100000)) * 0.25)
+	}
+	if r.coin() {
+		sh.Day.SetTo(time.Date(2000+r.intn(40), time.Month(1+r.intn(12)), 1+r.intn(28), 0, 0, 0, 0, time.UTC))
+	}
+	if r.coin() {
+		sh.Tod.SetTo(time.Date(0, 1, 1, r.intn(24), r.intn(60), r.intn(60), 0, time.UTC))
+	}
+	if r.coin() {
+		sh.Dur.SetTo(time.Duration(r.intn(100000)) * time.Second)
+	}
+	if r.coin() {
+		sh.UID.SetTo(uuid.NewMD5(uuid.Nil, []byte(tag)))
+	}
+	if r.coin() {
+		sh.IP.SetTo(netip.AddrFrom4([4]byte{10, byte(r.intn(256)), byte(r.intn(256)), byte(1 + r.intn(250))}))
+	}
+	if r.coin() {
+		if u, err := url.Parse("https://ex.test/p/" + tag + "?q=1&r=a%20b"); err == nil {
+			sh.Link.SetTo(*u)
+		}
+	}
+	switch r.intn(3) {
+	case 0:
+		sh.Maybe.SetTo("maybe " + tag)
+	case 1:
+		sh.Maybe.SetToNull()
+	}
+	switch r.intn(3) {
+	case 0:
+		sh.NumOrText.SetTo(api.NewFloat64ShapesNumOrText(float64(r.intn(1000)) * 0.125))
+	case 1:
+		sh.NumOrText.SetTo(api.NewStringShapesNumOrText("txt " + tag))
+	}
+	// the model: defaults applied on the receiving side
+	exp = *sh
+	if exp.Pick.Type == api.SquareShapesPick && !exp.Pick.Square.Label.Set {
+		exp.Pick.Square.Label.SetTo("sq")
+	}
+	if exp.Things.Set {
+		m := api.ShapesThings{}
+		for k, th := range exp.Things.Value {
+			if !th.S.Set {
+				th.S.SetTo("th")
+			}
+			m[k] = th
+		}
+		exp.Things.SetTo(m)
+	}
+	return sh, exp
 }
 
 func paramsEcho(p api.EchoParamsParams) *api.EchoParamsOK {
@@ -923,6 +1036,54 @@ func doCall(ctx context.Context, c *api.Client, rec *CallRecord) {
 		rec.ExpectClientGot = canon(*paramsEcho(params))
 		rec.ExpectStatus = 200
 		res, err := c.EchoParams(ctx, params)
+		finish(rec, res, err)
+	case "echoShapes":
+		sh, exp := makeShapes(tag, r)
+		params := api.EchoShapesParams{Kind: []api.EchoShapesKind{api.EchoShapesKindAlpha, api.EchoShapesKindBeta, api.EchoShapesKindGamma}[r.intn(3)], XNum: int64(1)<<55 + int64(r.intn(1000))}
+		if r.coin() {
+			f := api.EchoShapesFilter{}
+			if r.coin() {
+				f.Status.SetTo("st " + tag + " &=")
+			}
+			if r.coin() {
+				f.Min.SetTo(r.intn(100))
+			}
+			if r.coin() {
+				f.Flag.SetTo(r.coin())
+			}
+			if f.Status.Set || f.Min.Set || f.Flag.Set {
+				params.Filter.SetTo(f)
+			}
+		}
+		if r.coin() {
+			params.When.SetTo(time.Date(2001+r.intn(30), time.Month(1+r.intn(12)), 1+r.intn(28), 0, 0, 0, 0, time.UTC))
+		}
+		if r.coin() {
+			params.ID.SetTo(uuid.NewMD5(uuid.Nil, []byte("p"+tag)))
+		}
+		if r.coin() {
+			params.N32.SetTo(int32(r.intn(1 << 30)))
+		}
+		if r.coin() {
+			params.Ratio.SetTo(float32(r.intn(10000)) * 0.5)
+		}
+		if r.coin() {
+			params.XFlag.SetTo(r.coin())
+		}
+		if r.coin() {
+			params.Cnum.SetTo(r.intn(1 << 30))
+		}
+		expParams := params
+		if !expParams.N32.Set {
+			expParams.N32.SetTo(7)
+		}
+		rec.ExpectServerSaw = canon(struct {
+			Params api.EchoShapesParams
+			Body   api.Shapes
+		}{expParams, exp})
+		rec.ExpectClientGot = canon(exp)
+		rec.ExpectStatus = 200
+		res, err := c.EchoShapes(ctx, sh, params)
 		finish(rec, res, err)
 	case "secure2":
 		params := api.Secure2Params{Who: "w2 " + tag}
